@@ -1277,6 +1277,9 @@ fn is_core(k: Kind) -> bool {
             | Kind::TMac
             | Kind::TBlk
             | Kind::SeqN
+            | Kind::ForF
+            | Kind::TCal
+            | Kind::SeqI
     )
 }
 
@@ -1632,7 +1635,7 @@ fn main() {
             });
             // seeded sample of deeper nestings
             let mut rng = Rng::new(seed_from_env());
-            let (n, lo, hi) = if tier == "thorough" { (40_000, 5, 7) } else { (12_000, 4, 6) };
+            let (n, lo, hi) = if tier == "thorough" { (80_000, 5, 7) } else { (12_000, 4, 6) };
             let mut done = 0;
             let mut tries = 0;
             while done < n && tries < 50 * n {
